@@ -57,7 +57,10 @@ def derived_schema(ver):
  <xs:simpleType name="word"><xs:restriction base="xs:token"><xs:minLength value="2"/><xs:maxLength value="4"/></xs:restriction></xs:simpleType>
  <xs:simpleType name="en"><xs:restriction base="word"><xs:enumeration value="ab"/><xs:enumeration value="abcd"/></xs:restriction></xs:simpleType>
  <xs:simpleType name="ien"><xs:restriction base="xs:integer"><xs:enumeration value="1"/><xs:enumeration value="12"/></xs:restriction></xs:simpleType>
+ <xs:simpleType name="code3"><xs:restriction base="xs:integer"><xs:pattern value="[0-9]{{3}}"/></xs:restriction></xs:simpleType>
+ <xs:simpleType name="price2"><xs:restriction base="xs:decimal"><xs:pattern value="[0-9]+\\.[0-9]{{2}}"/></xs:restriction></xs:simpleType>
  <xs:simpleType name="ilist"><xs:list itemType="small"/></xs:simpleType>
+ <xs:simpleType name="pt3"><xs:restriction base="ilist"><xs:pattern value="[0-9]( [0-9]){{2}}"/></xs:restriction></xs:simpleType>
  <xs:simpleType name="ilist2"><xs:restriction base="ilist"><xs:length value="2"/></xs:restriction></xs:simpleType>
  <xs:simpleType name="u"><xs:union memberTypes="small xs:boolean word"/></xs:simpleType>
  <xs:simpleType name="us"><xs:union memberTypes="xs:int xs:string"/></xs:simpleType>
@@ -74,7 +77,7 @@ def derived_schema(ver):
  <xs:element name="small" type="small"/><xs:element name="smaller" type="smaller"/><xs:element name="word" type="word"/><xs:element name="en" type="en"/>
  <xs:element name="ilist" type="ilist"/><xs:element name="ilist2" type="ilist2"/><xs:element name="u" type="u"/><xs:element name="money" type="money"/>
  <xs:element name="durs" type="durs"/><xs:element name="stamps" type="stamps"/><xs:element name="ien" type="ien"/><xs:element name="qn23" type="qn23"/><xs:element name="qn2" type="qn2"/><xs:element name="tok23" type="tok23"/>
- <xs:element name="umix" type="umix"/><xs:element name="twoWords" type="twoWords"/><xs:element name="lead" type="lead"/></xs:schema>''')
+ <xs:element name="code3" type="code3"/><xs:element name="price2" type="price2"/><xs:element name="pt3" type="pt3"/><xs:element name="umix" type="umix"/><xs:element name="twoWords" type="twoWords"/><xs:element name="lead" type="lead"/></xs:schema>''')
 
 
 def isint(t): return re.fullmatch(r'[+-]?[0-9]+', t) is not None
@@ -98,6 +101,9 @@ REF = {
     'qn23': lambda t: 2 <= len(t.split()) <= 3 and all(re.fullmatch(r'[A-Za-z_][\w.-]*', x) for x in t.split()),
     'qn2': lambda t: len(t.split()) == 2 and all(re.fullmatch(r'[A-Za-z_][\w.-]*', x) for x in t.split()),
     'tok23': lambda t: 2 <= len(t.split()) <= 3 and all(re.fullmatch(r'[\w.:-]+', x) for x in t.split()),
+    'code3': lambda t: re.fullmatch(r'[0-9]{3}', t) is not None,
+    'price2': lambda t: re.fullmatch(r'[0-9]+\.[0-9]{2}', t) is not None,
+    'pt3': lambda t: re.fullmatch(r'[0-9]( [0-9]){2}', t) is not None,
     'ilist': lambda t: all(REF['small'](x) for x in t.split(' ')) if t else True,
     'ilist2': lambda t: len(t.split(' ')) == 2 and all(REF['small'](x) for x in t.split(' ')) if t else False,
     'u': lambda t: REF['small'](t) or t in ('true', 'false', '1', '0') or REF['word'](t),
@@ -120,7 +126,7 @@ VALUES = ['ab cd', 'ab  cd', ' ab cd', 'ab cd ', '  ab', ' ab', '12', ' 12 ', 'a
 def eval_derived(args):
     ver, name, v = args
     s = _S.setdefault(ver, derived_schema(ver))
-    t = v if name not in ('word', 'en', 'ien', 'qn23', 'qn2', 'tok23', 'ilist', 'ilist2', 'u', 'umix', 'small', 'smaller', 'money', 'durs', 'stamps') else re.sub(r' +', ' ', re.sub(r'[\t\n\r]', ' ', v)).strip(' ')
+    t = v if name not in ('word', 'en', 'ien', 'qn23', 'qn2', 'tok23', 'ilist', 'ilist2', 'code3', 'price2', 'pt3', 'u', 'umix', 'small', 'smaller', 'money', 'durs', 'stamps') else re.sub(r' +', ' ', re.sub(r'[\t\n\r]', ' ', v)).strip(' ')
     exp = REF[name](t)
     doc = f'<{name}>{v}</{name}>'
     try: got = s.is_valid(doc)
@@ -173,6 +179,27 @@ def eval_options(args):
     return dict(args=[ver, dt, bt, getattr(dec, '__name__', None)], bad=bad) if bad else None
 
 
+ENC_VALUES = {'code3': [123, 7, 1234, 100], 'price2': [Decimal('10.50'), Decimal('10.5'), 10.5, Decimal('1.234')], 'pt3': [[1, 2, 3], [1, 2], [1, 2, 3, 3], [1, 22, 3]],
+              'small': [0, 7, 100, 101, -1], 'smaller': [0, 7, 9, 10, 12, 100], 'ien': [1, 12, 2, 120], 'money': [Decimal('12.34'), Decimal('1.234'), Decimal('123.45'), Decimal('0.5'), 12.5, 1234],
+              'ilist': [[1, 2], [1, 101], []], 'ilist2': [[1, 2], [1], [1, 2, 3]], 'u': [7, True, 'abc', 'a', 101], 'word': ['ab', 'a', 'abcde'], 'en': ['ab', 'abc']}
+
+
+def eval_encode(args):
+    """encoding a typed value either fails or gives a text of the type's lexical space that decodes to the value again (every facet, patterns included, applies to what is written)"""
+    ver, name, v = args
+    s = _S.setdefault(ver, derived_schema(ver))
+    import xmlschema
+    try: e = s.encode(v, path=name)
+    except xmlschema.XMLSchemaException: return None
+    except Exception as x: return dict(ver=ver, type=name, value=repr(v), problem=f'encode raised {type(x).__name__}: {x}')
+    text = e.text or ''
+    if not REF[name](text): return dict(ver=ver, type=name, value=repr(v), problem=f'encode returned {text!r}, which the type rejects')
+    try:
+        if not s.is_valid(e): return dict(ver=ver, type=name, value=repr(v), problem=f'encode returned {text!r}, invalid for the same schema')
+    except Exception as x: return dict(ver=ver, type=name, value=repr(v), problem=f'validation of the encoded element raised {type(x).__name__}')
+    return None
+
+
 def run(tier, seed, open_findings):
     rng = random.Random(seed)
     texts = [''.join(c) for n in range(0, 5 if tier == 'thorough' else 4) for c in itertools.product(WSCHARS, repeat=n)]
@@ -206,10 +233,17 @@ def run(tier, seed, open_findings):
     out.append(result('C02.typed_decoding_options', f'{len(ojobs)} combinations of datetime_types x binary_types x decimal_type x class on one document with dates, durations, binaries, a decimal, lists and attributes: '
                       'dates / binaries are typed objects exactly when requested, text otherwise; decimals follow decimal_type', len(ojobs) * 12,
                       [dict(case=dict(options=r['args']), observed=r['bad'][:4], required='typed objects exactly when their option is set') for r in ores if r], exhaustive=True, samples=[dict(datetime_types=True, binary_types=True)]))
+    ejobs = [(ver, name, v) for ver in ('1.0', '1.1') for name, vs in ENC_VALUES.items() for v in vs]
+    eres = [eval_encode(j) for j in ejobs]
+    out.append(result('C02.encode_typed_values', f'{len(ejobs)} (class, derived type, typed Python value): encoding fails or returns a text that the same type accepts', len(ejobs),
+                      [dict(case=dict(ver=r['ver'], type=r['type'], enc_value=r['value']), observed=r['problem'], required='a validation error, or a text of the lexical space of the type') for r in eres if r], exhaustive=True,
+                      samples=[dict(type='smaller', value=12)]))
     return out
 
 
 def replay(check_name, case):
+    if 'enc_value' in case:
+        vals = {repr(v): v for v in ENC_VALUES[case['type']]}; r = eval_encode((case['ver'], case['type'], vals[case['enc_value']])); return dict(ok=r is None, observed=r, required='encode fails or returns a text of the type')
     if 'options' in case:
         o = case['options']; r = eval_options((o[0], o[1], o[2], {None: None, 'str': str, 'float': float}[o[3]])); return dict(ok=r is None, observed=r and r['bad'][:4], required='typed objects exactly when requested')
     if check_name == 'C02.normalize':
